@@ -377,5 +377,8 @@ def run(ctx):
             ctx.violation(key, what + " [class %s%s]" % (res["cls"], "/" + sub if sub else ""), dict(cmd=res["cmd"], options=res["opts"], report=rep))
         if len(ctx.samples) < 8 and res["i"] % 37 == 0:
             ctx.sample(dict(cls=res["cls"], options=res["opts"], exit_status=res["rc"], simulated=res.get("started")))
-    ctx.min_events = {"runs.asan": n * 3 // 4, "runs.memcheck": nmem // 2, "runs_that_finished": n // 3,
-                      "class.grid": 20, "class.buckets": 10, "class.impfile": 20, "class.startdist": 20, "class.tracking": 10, "class.kicks": 10, "class.rf": 10, "filekind.roundup": 4, "start_files_with_several_bucket_currents": 4}
+    from checks import c17_fuzz
+    ctx.min_events = {}
+    c17_fuzz.run(ctx)
+    ctx.min_events.update({"runs.asan": n * 3 // 4, "runs.memcheck": nmem // 2, "runs_that_finished": n // 3,
+                      "class.grid": 20, "class.buckets": 10, "class.impfile": 20, "class.startdist": 20, "class.tracking": 10, "class.kicks": 10, "class.rf": 10, "filekind.roundup": 4, "start_files_with_several_bucket_currents": 4})
